@@ -31,6 +31,18 @@ type c07Case struct {
 	Bnd []mon.F   `json:"bnd,omitempty"`
 	// user-defined DiscreteDist: lattice step (Xs are lattice points)
 	Step float64 `json:"step,omitempty"`
+	// Kind "large": a user-defined distribution with N break / lattice points
+	// that is rebuilt from (N, Shape, Step, Params[0] = lower end, Seed) by
+	// c07Expand, so that a record stays small. Shape 0: DiscreteDist on a
+	// lattice, equal masses; 1: DiscreteDist, random masses (a quarter of the
+	// points without mass); 2: the same step CDF as 1 but without PMF/Step
+	// methods; 3: mixed ramps, jumps and flats.
+	N     int `json:"n,omitempty"`
+	Shape int `json:"shape,omitempty"`
+	// Law: a built-in discrete distribution with a large support is judged by
+	// the two-point law CDF(x) >= y > CDF(x-step) at the lattice point x
+	// instead of a scan of the whole lattice
+	Law bool `json:"law,omitempty"`
 }
 
 func init() {
@@ -219,7 +231,9 @@ func c07Builtin(c c07Case) (stats.DistCommon, float64, string, bool) {
 func c07Judge(w *mon.W, c c07Case) {
 	switch c.Kind {
 	case "user":
-		c07User(w, c)
+		c07User(w, c, c, "")
+	case "large":
+		c07Large(w, c)
 	case "dispatch":
 		c07Dispatch(w, c)
 	case "rand":
@@ -229,21 +243,29 @@ func c07Judge(w *mon.W, c c07Case) {
 	}
 }
 
-func c07User(w *mon.W, c c07Case) {
+// c07User judges the case c; rec is the case written to a violation record
+// (c itself, or the compact description c was expanded from) and short, if
+// not empty, names the distribution instead of the full list of its points.
+func c07User(w *mon.W, c, rec c07Case, short string) {
 	calls := 0
 	d := pwDist{c.Xs, c.L, c.V, c.BoundIn, &calls}
 	var inv func(float64) float64
 	var dist stats.DistCommon = d // the value the library is given
-	name := fmt.Sprintf("piecewise CDF xs=%v l=%v v=%v", c.Xs, c.L, c.V)
+	name := short
+	if name == "" {
+		name = fmt.Sprintf("piecewise CDF xs=%v l=%v v=%v", c.Xs, c.L, c.V)
+	}
 	if c.Step > 0 {
 		w.Hit("user-defined-DiscreteDist")
-		name = fmt.Sprintf("user-defined discrete distribution on %g+i*%g: points %v, CDF values %v", c.Xs[0], c.Step, c.Xs, c.V)
+		if short == "" {
+			name = fmt.Sprintf("user-defined discrete distribution on %g+i*%g: points %v, CDF values %v", c.Xs[0], c.Step, c.Xs, c.V)
+		}
 		dist = pwLattice{d, c.Xs[0], c.Step, c.BoundIn}
 		if _, h := dist.Bounds(); c.BoundIn && h < c.Xs[len(c.Xs)-1] {
 			w.Hit("lattice-Bounds-inside-the-support")
 		}
 		if p, e := mon.Call(func() { inv = stats.InvCDF(dist) }); p {
-			w.Violate("panic", fmt.Sprintf("%s: InvCDF panicked: %v", name, e), c)
+			w.Violate("panic", fmt.Sprintf("%s: InvCDF panicked: %v", name, e), rec)
 			return
 		}
 	} else {
@@ -253,7 +275,7 @@ func c07User(w *mon.W, c c07Case) {
 	var pts []pt
 	for _, yf := range c.Ys {
 		y := float64(yf)
-		one := c
+		one := rec
 		one.Ys = []mon.F{yf}
 		calls = 0
 		var x float64
@@ -310,7 +332,9 @@ func c07User(w *mon.W, c c07Case) {
 				w.Violate("inverse", fmt.Sprintf("%s: InvCDF(%.17g)=%.17g, smallest x with CDF(x)>=y is %.17g", name, y, x, want), one)
 			}
 			pts = append(pts, pt{y, x})
-			if w.WantSample() {
+			if w.WantSample() && short != "" {
+				w.Sample(map[string]any{"dist": short, "y": y, "x": x, "x_ref": want, "cdf_calls": calls})
+			} else if w.WantSample() {
 				w.Sample(map[string]any{"cdf_breaks": c.Xs, "left_limits": c.L, "values": c.V, "y": y, "x": x, "x_ref": want, "cdf_calls": calls})
 			}
 		}
@@ -318,7 +342,7 @@ func c07User(w *mon.W, c c07Case) {
 	sort.Slice(pts, func(i, j int) bool { return pts[i].y < pts[j].y })
 	for i := 1; i < len(pts); i++ {
 		if pts[i].x < pts[i-1].x-1e-9*math.Max(math.Abs(pts[i].x), 1e-3) {
-			w.Violate("monotone", fmt.Sprintf("%s: InvCDF(%g)=%g > InvCDF(%g)=%g", name, pts[i-1].y, pts[i-1].x, pts[i].y, pts[i].x), c)
+			w.Violate("monotone", fmt.Sprintf("%s: InvCDF(%g)=%g > InvCDF(%g)=%g", name, pts[i-1].y, pts[i-1].x, pts[i].y, pts[i].x), rec)
 		}
 	}
 }
@@ -389,7 +413,34 @@ func c07BuiltinInvVia(w *mon.W, c c07Case, base stats.DistCommon, scale float64,
 				w.Violate("endpoint", fmt.Sprintf("%s: InvCDF(%g)=%g, want %g", name, y, x, want), one)
 			}
 		default:
-			if discrete {
+			if discrete && c.Law {
+				// Large support: the answer must be (within the tolerance) a
+				// lattice point k with CDF(k) >= y > CDF(k-step). Either
+				// inequality failing refutes "the smallest x with CDF(x)>=y"
+				// outright; both holding pin k down when the CDF is
+				// non-decreasing, and any search that keeps the invariant
+				// "CDF<y below, CDF>=y at" ends there even where the
+				// library's own CDF carries rounding noise.
+				lo, hi := base.Bounds()
+				step := 1.0
+				if c.Kind == "udist" {
+					step = 0.5
+				}
+				k := lo + math.Round((x-lo)/step)*step
+				if math.IsNaN(x) || k < lo || k > hi || !w.Err("discrete-lattice-point", math.Abs(x-k), 1e-9*math.Max(math.Abs(k), 1)) {
+					w.Violate("inverse", fmt.Sprintf("%s: InvCDF(%.17g)=%.17g is not a point of the support %g..%g (step %g)", name, y, x, lo, hi, step), one)
+					continue
+				}
+				w.Hit("large-support-two-point-law")
+				at, below := base.CDF(k), base.CDF(k-step)
+				if !(at >= y) {
+					w.Violate("inverse-low", fmt.Sprintf("%s: InvCDF(%.17g)=%.17g but CDF(%g)=%.17g < y", name, y, x, k, at), one)
+				}
+				if below >= y {
+					w.Violate("inverse-high", fmt.Sprintf("%s: InvCDF(%.17g)=%.17g but CDF(%g)=%.17g already reaches y: not the smallest x", name, y, x, k-step, below), one)
+				}
+				x = k
+			} else if discrete {
 				// the smallest lattice point with CDF >= y, by scanning the lattice
 				lo, hi := base.Bounds()
 				step := 1.0
@@ -659,8 +710,12 @@ func c07Rand(w *mon.W, c c07Case) {
 // c07GenUser draws a piecewise CDF: ramps (slope >= 5e-4 in CDF units per unit
 // x), jumps and flats, located anywhere within +-1e6.
 func c07GenUser(rng *mon.Rand, pureStep bool) c07Case {
+	return c07GenUserM(rng, pureStep, rng.Range(1, 6))
+}
+
+// c07GenUserM is c07GenUser with a given number m of segments.
+func c07GenUserM(rng *mon.Rand, pureStep bool, m int) c07Case {
 	c := c07Case{Kind: "user"}
-	m := rng.Range(1, 6) // number of segments
 	// masses: each segment ramp mass and each break point jump mass
 	nb := m + 1
 	ramp := make([]float64, m)
@@ -731,6 +786,90 @@ func c07GenUser(rng *mon.Rand, pureStep bool) c07Case {
 	return c
 }
 
+// c07Size draws a size between lo and hi: log-uniform, or at / just beyond a
+// round number (powers of two, 200, 1000, 5000, 10000 ...).
+func c07Size(rng *mon.Rand, lo, hi int) int {
+	if rng.Intn(2) == 0 {
+		return int(rng.LogUniform(float64(lo), float64(hi)+1))
+	}
+	round := []int{16, 32, 50, 64, 100, 128, 200, 250, 256, 300, 500, 512, 1000, 1024, 2000, 2048, 2500, 4096, 5000, 8192, 10000, 16384, 20000, 32768, 50000, 65536, 100000, 131072}
+	for try := 0; try < 50; try++ {
+		n := round[rng.Intn(len(round))] + rng.PickI(-1, 0, 0, 1, 2, 3)
+		if n >= lo && n <= hi {
+			return n
+		}
+	}
+	return hi
+}
+
+// c07Expand rebuilds the break points of a "large" case from its compact
+// description (N, Shape, Step, Params[0], Seed).
+func c07Expand(c c07Case) c07Case {
+	rng := mon.NewRand(c.Seed, uint64(c.N), uint64(c.Shape))
+	if c.Shape == 3 {
+		e := c07GenUserM(rng, false, c.N-1)
+		e.Ys = c.Ys
+		return e
+	}
+	e := c07Case{Kind: "user", Ys: c.Ys, BoundIn: c.BoundIn}
+	if c.Shape != 2 {
+		e.Step = c.Step
+	}
+	n, lo := c.N, c.Params[0]
+	e.Xs, e.L, e.V = make([]float64, n), make([]float64, n), make([]float64, n)
+	mass := make([]float64, n)
+	tot := 0.0
+	for k := range mass {
+		mass[k] = 1
+		if c.Shape != 0 {
+			mass[k] = rng.Uniform(0.05, 1)
+			if rng.Intn(4) == 0 {
+				mass[k] = 0
+			}
+		}
+		tot += mass[k]
+	}
+	if tot == 0 {
+		mass[0], tot = 1, 1
+	}
+	cum := 0.0
+	for k := 0; k < n; k++ {
+		e.Xs[k] = lo + float64(k)*c.Step
+		e.L[k] = cum
+		if c.Shape == 0 {
+			cum = float64(k+1) / float64(n)
+		} else {
+			cum += mass[k] / tot
+		}
+		if k == n-1 || cum > 1 {
+			cum = 1
+		}
+		e.V[k] = cum
+	}
+	return e
+}
+
+func c07LargeName(c c07Case) string {
+	return fmt.Sprintf("user-defined %s with %d points from %g (step %g, generator seed %d, Bounds inside the support: %v)",
+		[]string{"DiscreteDist of equal masses", "DiscreteDist of random masses", "step CDF without PMF/Step methods", "piecewise CDF of ramps, jumps and flats"}[c.Shape&3], c.N, c.Params[0], c.Step, c.Seed, c.BoundIn)
+}
+
+func c07Large(w *mon.W, c c07Case) {
+	if c.N < 2 || len(c.Params) < 1 || c.Shape < 0 || c.Shape > 3 {
+		return
+	}
+	e := c07Expand(c)
+	w.Hit("large-support")
+	w.HitIf(c.N > 201, "support>201-points")
+	w.HitIf(c.N > 1000, "support>1000-points")
+	w.HitIf(c.N > 10000, "support>10000-points")
+	w.HitIf(c.N > 40000, "support>40000-points")
+	w.HitIf(c.Shape == 3, "large-piecewise-mixed")
+	w.HitIf(c.Shape == 2, "large-step-CDF-generic-path")
+	w.HitIf(c.Shape < 2, "large-DiscreteDist")
+	c07User(w, e, c, c07LargeName(c))
+}
+
 func c07Ys(rng *mon.Rand, levels []float64) []mon.F {
 	ys := []float64{0, 1, 1e-300, 1 - 1e-16, -rng.Float64(), 1 + rng.LogUniform(1e-15, 3), math.Nextafter(1, 2), -1e-300}
 	for k := 0; k < 10; k++ {
@@ -798,9 +937,9 @@ func c07GenLattice(rng *mon.Rand, i int) c07Case {
 }
 
 func c07Run(r *mon.Run) {
-	r.Rule("user-defined piecewise CDFs (ramps of slope>=5e-4, jumps, flats, pure step functions; centre anywhere in +-1e6; widths 1e-3..1e3) judged against the analytic generalized inverse; built-ins TDist, BinomialDist, HypergeometicDist, UDist, KDE judged through their own CDF; y uniform, at exact jump/kink levels and their neighbours one ulp away, 1e-300, 1-1e-16, 0, 1 and outside [0,1]; dispatch to own InvCDF/Rand methods; Rand: determinism, DKW bound (alpha=1e-9) on seeded draws, a source whose first variate is 0. Non-trivial = hits a class; distinct by hash of the CDF description.")
+	r.Rule("user-defined piecewise CDFs (ramps of slope>=5e-4, jumps, flats, pure step functions; centre anywhere in +-1e6; widths 1e-3..1e3) judged against the analytic generalized inverse; built-ins TDist, BinomialDist, HypergeometicDist, UDist, KDE judged through their own CDF; y uniform, at exact jump/kink levels and their neighbours one ulp away, 1e-300, 1-1e-16, 0, 1 and outside [0,1]; dispatch to own InvCDF/Rand methods; Rand: determinism, DKW bound (alpha=1e-9) on seeded draws, a source whose first variate is 0. Scale: user-defined DiscreteDists (equal / random masses, exact or inside Bounds), step CDFs without PMF/Step and mixed piecewise CDFs with 8..131 072 support / break points (sizes log-uniform and at or just beyond round numbers: powers of two, 200, 1000, 5000, 10000 ...), y at exactly attained CDF values over the whole support, against the same analytic inverse; BinomialDist (N up to 30 000) and HypergeometicDist (N up to 6 000, only where the library CDF probes as non-decreasing from 0 to 1) at exactly attained CDF values, judged by the two-point law CDF(x) >= y > CDF(x-step) at a lattice point x. Non-trivial = hits a class; distinct by hash of the CDF description.")
 	r.Assume("ramp slopes >= 5e-4 keep the float64 crossing within 2e-13 of the analytic one (tolerance 1e-9 relative, floor 1e-12)", "for built-ins the library's own CDF is the oracle (its accuracy is C05/C06/C02/C12's business)")
-	r.Gate("y-at-jump-or-kink-level", "centre>1e5", "centre<-1e5", "discrete-builtin", "scripted-zero-draw", "y-outside", "y=0-bounds-endpoint", "y=0-minus-inf", "y=1-bounds-endpoint", "y=1-plus-inf", "dispatch", "builtin-t", "builtin-binom", "builtin-hyperg", "builtin-udist", "builtin-kde", "rand-user", "rand-builtin", "pure-step", "unwrapped-builtin", "kde-weighted", "kde-bounded", "kde-delta-kernel", "rand-kde-weighted", "user-defined-DiscreteDist", "rand-nil-source", "rand-user-defined-DiscreteDist", "lattice-Bounds-inside-the-support")
+	r.Gate("y-at-jump-or-kink-level", "centre>1e5", "centre<-1e5", "discrete-builtin", "scripted-zero-draw", "y-outside", "y=0-bounds-endpoint", "y=0-minus-inf", "y=1-bounds-endpoint", "y=1-plus-inf", "dispatch", "builtin-t", "builtin-binom", "builtin-hyperg", "builtin-udist", "builtin-kde", "rand-user", "rand-builtin", "pure-step", "unwrapped-builtin", "kde-weighted", "kde-bounded", "kde-delta-kernel", "rand-kde-weighted", "user-defined-DiscreteDist", "rand-nil-source", "rand-user-defined-DiscreteDist", "lattice-Bounds-inside-the-support", "support>201-points", "support>1000-points", "support>10000-points", "large-DiscreteDist", "large-step-CDF-generic-path", "large-piecewise-mixed", "builtin-support>201-points", "builtin-support>1000-points", "large-support-two-point-law")
 
 	r.Parallel("user", r.Pick(3000, 40000), func(w *mon.W, i int) {
 		rng := w.Rng
@@ -824,6 +963,39 @@ func c07Run(r *mon.Run) {
 		}
 		c07Judge(w, c)
 		w.Distinct(mon.NewHasher().S("lattice").F(c.Step).Fs(c.Xs).Fs(c.V).Sum())
+	})
+	// Scale: user-defined distributions with up to 131 072 support / break
+	// points (sizes log-uniform and at / just beyond round numbers), y at
+	// exactly attained CDF values spread over the whole support
+	r.Parallel("user-large", r.Pick(360, 3600), func(w *mon.W, i int) {
+		rng := w.Rng
+		c := c07Case{Kind: "large", Shape: i % 4, Seed: rng.Uint64() >> 1}
+		c.N = c07Size(rng, 13, int(r.Pick(70000, 132000)))
+		if i%4 == 3 {
+			c.N = c07Size(rng, 8, int(r.Pick(30000, 70000)))
+		}
+		c.Step = rng.Pick(0.1, 0.2, 0.3, 3, 1e-3, 0.7, 2.5, 1e-6, 1, 0.5, 1e4, 1, 0.25)
+		for float64(c.N)*c.Step > 4e5 { // the whole support within +-1e6
+			c.Step /= 10
+		}
+		lo := rng.Pick(0, -c.Step*float64(rng.Range(1, 9)), c.Step*float64(rng.Range(1, 50)), rng.Uniform(-5, 5), -1e3*c.Step, rng.Sign()*rng.LogUniform(1e3, 5e5), -c.Step*float64(c.N/2))
+		c.Params = []float64{lo}
+		c.BoundIn = c.Shape == 1 && rng.Intn(3) == 0
+		e := c07Expand(c)
+		// levels: the first and last few, and points spread over the support
+		n := len(e.V)
+		var lv []float64
+		for _, k := range []int{0, 1, n - 3, n - 2, n / 2, rng.Intn(n), rng.Intn(n), rng.Intn(n), rng.Intn(n), rng.Intn(n), rng.Intn(n), rng.Intn(n), int(rng.LogUniform(1, float64(n))), int(rng.LogUniform(1, float64(n))), n - 1 - int(rng.LogUniform(1, float64(n)))} {
+			if k >= 0 && k < n {
+				lv = append(lv, e.V[k])
+				if c.Shape == 3 {
+					lv = append(lv, e.L[k])
+				}
+			}
+		}
+		c.Ys = c07Ys(rng, lv)
+		c07Judge(w, c)
+		w.Distinct(mon.NewHasher().S("large").I(c.N).I(c.Shape).F(c.Step).F(lo).I(int(c.Seed)).Sum())
 	})
 	builtin := func(rng *mon.Rand, k int) c07Case {
 		c := c07Case{}
@@ -895,6 +1067,78 @@ func c07Run(r *mon.Run) {
 		h := mon.NewHasher().S(c.Kind).Fs(c.Params).Fs(c.Xs).Fs(c.Ws)
 		c07Judge(w, c)
 		w.Distinct(h.Sum())
+	})
+	// Scale: the built-in discrete distributions with supports of up to tens
+	// of thousands of points, y at exactly attained CDF values (half of them
+	// within a few standard deviations of the mean, where the CDF is neither
+	// 0 nor 1), judged by the two-point law
+	r.Parallel("builtin-large", r.Pick(240, 2400), func(w *mon.W, i int) {
+		rng := w.Rng
+		c := c07Case{Law: true}
+		var mean, sd float64
+		if i%3 != 0 {
+			N := c07Size(rng, 61, 30000)
+			p := rng.Pick(rng.Float64(), 0.5, 0.01, 0.99, rng.Uniform(0.05, 0.95), rng.LogUniform(1e-4, 0.5))
+			c.Kind, c.Params = "binom", []float64{float64(N), p}
+			mean, sd = float64(N)*p, math.Sqrt(float64(N)*p*(1-p))
+		} else {
+			N := c07Size(rng, 61, 6000)
+			K, D := rng.Range(N/10, N), rng.Range(N/10, N)
+			if rng.Intn(3) == 0 {
+				K, D = rng.Range(0, N), rng.Range(0, N)
+			}
+			c.Kind, c.Params = "hyperg", []float64{float64(N), float64(K), float64(D)}
+			f := float64(K) / float64(N)
+			mean = float64(D) * f
+			sd = math.Sqrt(float64(D) * f * (1 - f) * float64(N-D) / math.Max(float64(N-1), 1))
+		}
+		d, _, _, _ := c07Builtin(c)
+		lo, hi := d.Bounds()
+		pts := int(hi-lo) + 1
+		w.HitIf(pts > 201, "builtin-support>201-points")
+		w.HitIf(pts > 1000, "builtin-support>1000-points")
+		w.HitIf(pts > 10000, "builtin-support>10000-points")
+		// The statement is about distributions whose CDF is non-decreasing
+		// from 0 to 1. The library's own CDF of a large distribution need not
+		// be one (HypergeometicDist.CDF is NaN where a PMF term underflows,
+		// which is C06's business): probe it at 64 points over the support
+		// and leave the case out if it is not.
+		probe := []float64{lo, hi, lo + 1, hi - 1}
+		for k := 0; k < 60; k++ {
+			x := lo + float64(rng.Intn(pts))
+			if k%2 == 0 {
+				x = math.Round(mean + rng.Norm()*3*sd)
+			}
+			if x >= lo && x <= hi {
+				probe = append(probe, x)
+			}
+		}
+		sort.Float64s(probe)
+		prev, valid := 0.0, d.CDF(lo-1) == 0 && d.CDF(hi) == 1
+		for _, x := range probe {
+			f := d.CDF(x)
+			if !(f >= prev && f <= 1) {
+				valid = false
+			}
+			prev = f
+		}
+		if !valid {
+			w.Note("builtin-large-CDF-not-non-decreasing-from-0-to-1(left-out)")
+			return
+		}
+		var lv []float64
+		for k := 0; k < 12; k++ {
+			x := lo + float64(rng.Intn(pts))
+			if k%2 == 0 {
+				x = math.Round(mean + rng.Norm()*2*sd)
+			}
+			if x >= lo && x <= hi {
+				lv = append(lv, d.CDF(x))
+			}
+		}
+		c.Ys = c07Ys(rng, lv)
+		c07Judge(w, c)
+		w.Distinct(mon.NewHasher().S("large").S(c.Kind).Fs(c.Params).Sum())
 	})
 	r.Parallel("dispatch", r.Pick(200, 2000), func(w *mon.W, i int) {
 		rng := w.Rng
